@@ -531,13 +531,15 @@ class QasmProcessor:
                         )
                 new_regs.append(qubit)
             if expand:
-                return zip(
-                    *list(
-                        map(
-                            lambda x: (
-                                x if isinstance(x, list) else [x] * expand
-                            ),
-                            new_regs,
+                return list(
+                    zip(
+                        *list(
+                            map(
+                                lambda x: (
+                                    x if isinstance(x, list) else [x] * expand
+                                ),
+                                new_regs,
+                            )
                         )
                     )
                 )
@@ -808,10 +810,11 @@ class QasmProcessor:
         qc.user_gates = custom_gates
 
         # adds gate to the QubitCircuit
+        if command[0] in self.predefined_gates:
+            args = [eval(arg) for arg in args]
         for regs in reg_set:
             regs = [int(i) for i in regs]
             if command[0] in self.predefined_gates:
-                args = [eval(arg) for arg in args]
                 self._add_predefined_gates(
                     qc,
                     command[0],
